@@ -6,18 +6,25 @@ import MakoModel.Extract.Lemmas
 All statements are about `MakoModel.Extract` (`mako/ext/extract.py`, `babelplugin.py`, `linguaplugin.py`),
 for **all** node trees, **all** finders (the Python-level call finder is an oracle parameter), all tag lists.
 
-Three statements of the property are false for the code as it is; each is kept as an `OPEN` statement,
-proved with an explicit guard (`…_partial`) and refuted on a witness (`…_counterexample`):
+Three statements of the property are false for the code as it is; each is kept as an `OPEN` statement (in a
+comment), proved with an explicit guard (`…_partial`) and refuted on a witness (`…_counterexample`):
 
 * `every_call_once`   – constructs below tags whose children `extract_nodes` never visits (`<%namespace>`
-                        bodies) are not handed to the finder.  (Filter lists are handed over since 5365b81:
-                        the expression branch now passes `(code), (filters,)`.)
+                        bodies with inline defs, F-C20-1) are not handed to the finder;
 * `reported_line`     – Babel and Lingua: wrong when the code string does not start on the node's first line
-                        (F7: attributes on later lines of a tag).  Filter lists are exact since ca5ce72 (the
-                        wrapper is padded down to the line the filter list is written on).
-                        (Lingua's own offset errors were repaired in ee690ea: `reported_line_lingua` is positive.)
+                        (F7: Python in a tag attribute that starts on a later line of a multi-line tag);
 * `translator_comments_window` – a comment block that was not used stays pending and is attached, together
-                        with a later block, to a construct further down.
+                        with a later block, to a construct further down (F-C20-4).  The related F-C20-5/6/7 –
+                        window kept open across text, one copy per matching tag, `splitlines` inside one
+                        comment – are part of the model as well: `translator_comments_window_partial` states
+                        what is collected (`opened`, `collect`) as the code does it, not as the specification
+                        `commentsFor` would.
+
+Everything else is proved without such a guard: filter lists are handed over and located exactly
+(`every_python_text_handed`, `reported_line_wrapped_expression`, `reported_line_filter`), Lingua's line
+arithmetic is exact under the same guard as Babel's (`reported_line_lingua`).
+`reported_line_filter_unpadded_regression` is a labelled regression statement about an earlier form of the wrapper,
+not a finding.
 -/
 namespace MakoModel.C20
 open MakoModel.Basic MakoModel.Extract
